@@ -6,8 +6,10 @@ Correspondence: the Gallina state machine under vm_compute (delay functions = ta
 params.compute_dmdelays / the period-drift formula return for exactly the arguments the model passes) versus the
 implementation on the same cubes and histories: final cube, reported dm/period, _fph_shifts/_tph_shifts, exceptions.
 Oracle: the property in plain NumPy against the implementation: every history must end in a fresh cube rotated once."""
+import contextlib
 import itertools
 import re
+import warnings
 from concurrent.futures import ThreadPoolExecutor
 from fractions import Fraction
 
@@ -20,24 +22,91 @@ CHUNK = 100     # cases per Coq definition (type-checking one huge list literal 
 
 
 # ---------------------------------------------------------------------------------------------------------
+HDR_FIELDS = ("nchans", "foff", "fch1", "tsamp", "nsamples", "tobs", "nbits", "tstart")
+FORMS = ("copy", "f64", "fortran", "strided", "list")
+
+
 class World:
-    def __init__(self, name, hdrp, shape, dm0, p0, cube0, dms, ps):
+    """raw=True: targets and folding values are handed to the library with the Python / NumPy type they were given with (int,
+    numpy.float32, ...) instead of being converted to float first (the law is always evaluated on float(value)).
+    form: how the folded cube is handed to the constructor (FORMS); bits=True: the cube holds arbitrary float32 bit patterns
+    (NaN with payloads, infinities, -0.0, denormals): dumps print the uint32 patterns and the world is oracle-only.
+    accel: passed to the constructor when not None (updates must not depend on it)."""
+
+    def __init__(self, name, hdrp, shape, dm0, p0, cube0, dms, ps, raw=False, form="copy", bits=False, accel=None):
         from sigpyproc.header import Header
         self.name, self.hdrp, self.shape = name, hdrp, tuple(int(x) for x in shape)
         self.dm0, self.p0 = float(dm0), float(p0)
+        self.ctor = (p0, dm0) if raw else (self.p0, self.dm0)
         self.cube0 = np.asarray(cube0, dtype=np.float32).reshape(self.shape)
-        self.dms, self.ps = [float(x) for x in dms], [float(x) for x in ps]
+        self.dms, self.ps = (list(dms), list(ps)) if raw else ([float(x) for x in dms], [float(x) for x in ps])
+        self.raw, self.form, self.bits, self.accel = raw, form, bits, accel
+        if form not in FORMS or (bits and form in ("f64", "list")):
+            raise ValueError(form)
         self.hdr = Header(filename="c17.fil", data_type="filterbank", nchans=hdrp["nchans"], foff=hdrp["foff"],
                           fch1=hdrp["fch1"], nbits=8, tsamp=hdrp["tsamp"], tstart=50000.0, nsamples=hdrp["nsamples"])
+        self.hdr0 = {k: getattr(self.hdr, k) for k in HDR_FIELDS}
         self._exp = {}
 
+    def dump(self, a):
+        """values of a cube for a replay: integers, or the uint32 bit patterns of a `bits` world"""
+        if self.bits:
+            return [int(x) for x in np.ascontiguousarray(a, dtype=np.float32).view(np.uint32).ravel()]
+        return ilist(a)
+
     def describe(self):
-        return {"world": self.name, "header": self.hdrp, "shape": list(self.shape), "dm_fold": self.dm0, "period_fold": self.p0,
-                "cube0": [int(x) for x in self.cube0.ravel()]}
+        d = {"world": self.name, "header": self.hdrp, "shape": list(self.shape), "dm_fold": self.dm0, "period_fold": self.p0,
+             ("cube0_float32_bits" if self.bits else "cube0"): self.dump(self.cube0)}
+        if self.form != "copy":
+            d["constructor_input"] = self.form
+        if self.raw:
+            d["constructor_types"] = [type(x).__name__ for x in self.ctor]
+        if self.accel is not None:
+            d["accel"] = self.accel
+        return d
+
+    def ctor_input(self):
+        """the folded cube in the form this world hands it to the constructor (always a private object)"""
+        if self.form == "f64":
+            return self.cube0.astype(np.float64)
+        if self.form == "fortran":
+            return np.asfortranarray(self.cube0.copy())
+        if self.form == "strided":
+            ni, nb, nbin = self.shape
+            buf = np.full((ni, nb, 2 * nbin), np.float32(-7777), dtype=np.float32)
+            buf[:, :, ::2] = self.cube0
+            return buf[:, :, ::2]
+        if self.form == "list":
+            return self.cube0.astype(np.float64).tolist()
+        return self.cube0.copy()
 
     def fresh(self):
         from sigpyproc.foldedcube import FoldedData
-        return FoldedData(self.cube0.copy(), self.hdr, self.p0, self.dm0)
+        if self.accel is not None:
+            return FoldedData(self.ctor_input(), self.hdr, self.ctor[0], self.ctor[1], self.accel)
+        return FoldedData(self.ctor_input(), self.hdr, self.ctor[0], self.ctor[1])
+
+    def ops_of(self, ops):
+        """a history for a replay (JSON): raw worlds also name the type of each target"""
+        if self.raw:
+            return [[k, float(v), type(v).__name__] for k, v in ops]
+        return [[k, v] for k, v in ops]
+
+
+@contextlib.contextmanager
+def strict():
+    """NumPy RuntimeWarnings (invalid value in cast, overflow, ...) raised inside the library are failures, not noise"""
+    with warnings.catch_warnings():
+        warnings.simplefilter("error", RuntimeWarning)
+        yield
+
+
+def exc_key(W, e, prefix=""):
+    if isinstance(e, RuntimeWarning):
+        return prefix + "runtime-warning"
+    if not prefix and W.shape[1] == 1 and type(e).__name__ == "IndexError":
+        return "single-subband-exception"
+    return prefix + "exception"
 
 
 def run_impl(W, ops):
@@ -45,19 +114,21 @@ def run_impl(W, ops):
     c = W.fresh()
     for k, (kind, v) in enumerate(ops):
         try:
-            (c.update_dm if kind == "dm" else c.update_period)(v)
+            with strict():
+                (c.update_dm if kind == "dm" else c.update_period)(v)
         except Exception as e:  # noqa: BLE001
-            return c, (k, type(e).__name__, str(e)[:80])
+            return c, (k, type(e).__name__, str(e)[:80], exc_key(W, e))
     return c, None
 
 
 def finals(W, ops):
+    """(final DM, final period) as Python floats: the law depends on the value of a target, not on its type"""
     d, p = W.dm0, W.p0
     for kind, v in ops:
         if kind == "dm":
-            d = v
+            d = float(v)
         else:
-            p = v
+            p = float(v)
     return d, p
 
 
@@ -88,6 +159,42 @@ def implied_shifts(W, d, p):
     db = dbins_of(W, p, W.p0, W.p0)
     sp = [0] * ni if db == 0 else p_table_value(W, db)
     return sd, sp
+
+
+LAW_K = 4.148808e3      # dispersion constant of the restated law (float64 anchor of the shifts)
+
+
+def law_anchor(W, d, p):
+    """float64 anchor of the two shift laws, independent of the library's and of this file's float32 / int32 evaluation:
+    every shift is the nearest integer to the exact drift (0.5 bin + the float32 evaluation error, 1e-6 relative: three times the
+    a-priori bound).  Returns [(key, message, details)] of the entries that are not."""
+    ni, nb, nbin = W.shape
+    sd, sp = implied_shifts(W, d, p)
+    bad = []
+    h = W.hdr
+    delta = d - W.dm0
+    if delta != 0:
+        freqs = np.arange(nb, dtype=np.float64) * (h.foff * h.nchans / nb) + h.fch1
+        tsamp = W.p0 / nbin
+        ref = LAW_K * delta * (freqs ** -2 - h.fch1 ** -2) / tsamp
+        tol = 0.5 + 1e-6 * LAW_K * abs(delta) * (freqs ** -2 + h.fch1 ** -2) / abs(tsamp)
+        err = np.abs(np.asarray(sd, dtype=np.float64) - ref) if len(sd) == nb else np.full(nb, np.inf)
+        if not np.all(err <= tol):
+            b = int(np.argmax(err - tol))
+            bad.append(("dm-law", "sub-band shift is not the dispersion drift 4.148808e3*dDM*(f^-2 - fch1^-2)/(period_fold/nbins) "
+                        "rounded to the nearest bin", {"subband": b, "shift": int(sd[b]) if len(sd) == nb else None,
+                                                       "exact_drift_bins": float(ref[b]), "tolerance_bins": float(tol[b])}))
+    db = dbins_of(W, p, W.p0, W.p0)
+    if db != 0:
+        ref = np.arange(ni, dtype=np.float64) * db / ni
+        tol = 0.5 + 1e-6 * np.abs(ref)
+        err = np.abs(np.asarray(sp, dtype=np.float64) - ref) if len(sp) == ni else np.full(ni, np.inf)
+        if not np.all(err <= tol):
+            i = int(np.argmax(err - tol))
+            bad.append(("period-law", "sub-integration shift is not the linear drift i*dbins/nsubints rounded to the nearest bin",
+                        {"subint": i, "shift": int(sp[i]) if len(sp) == ni else None, "exact_drift_bins": float(ref[i]),
+                         "dbins": float(db), "tolerance_bins": float(tol[i])}))
+    return bad
 
 
 def law_cube(W, d, p):
@@ -126,17 +233,21 @@ class Oracle:
             f = W.fresh()
             err = None
             try:
-                f.update_dm(d)
-                f.update_period(p)
+                with strict():
+                    f.update_dm(d)
+                    f.update_period(p)
             except Exception as e:  # noqa: BLE001
-                err = type(e).__name__
+                err = e
             law = law_cube(W, d, p)
             if err is not None:
-                self.fail("first-update-exception", f"a single update of a fresh cube raised {err}",
+                self.fail("first-update-runtime-warning" if isinstance(err, RuntimeWarning) else "first-update-exception",
+                          f"a single update of a fresh cube raised {type(err).__name__}: {str(err)[:80]}",
                           dict(W.describe(), dm=d, period=p))
             elif not biteq(f.data, law) or f.dm != d or f.period != p:
                 self.fail("first-update-shift", "a fresh cube updated once is not the folded cube rotated by the implied shifts",
-                          dict(W.describe(), dm=d, period=p, got=ilist(f.data), expected=ilist(law), shifts=implied_shifts(W, d, p)))
+                          dict(W.describe(), dm=d, period=p, got=W.dump(f.data), expected=W.dump(law), shifts=implied_shifts(W, d, p)))
+            for key, what, det in law_anchor(W, d, p):
+                self.fail(key, what, dict(W.describe(), dm=d, period=p, **det))
             W._exp[k] = law
         return W._exp[k]
 
@@ -148,26 +259,37 @@ class Oracle:
         c, err = run_impl(W, ops)
         kinds = {k for k, _ in ops}
         fam = "dm" if kinds == {"dm"} else "period" if kinds == {"p"} else "mixed"
-        case = dict(W.describe(), ops=[[k, v] for k, v in ops])
+        case = dict(W.describe(), ops=W.ops_of(ops))
         sd, sp = implied_shifts(W, d, p)
         nbin = W.shape[2]
         nontrivial = any(s % nbin for s in sd) or any(s % nbin for s in sp) or len(set(ops)) > 1
         R.case((W.name, tuple(ops)), nontrivial=bool(nontrivial), regime=f"{fam}-depth{min(len(ops), 5)}{'+' if len(ops) > 4 else ''}",
                sample=dict(case, final=ilist(c.data)[:16]) if (len(ops) == 2 and W.name == "A") else None)
+        for tag, on in (("raw-target-types", W.raw), ("constructor-form-" + W.form, W.form != "copy"), ("float32-bit-pattern-cube", W.bits),
+                        ("accel-nonzero", W.accel is not None), ("nbins-1", nbin == 1), ("target-dm-negative", d < 0),
+                        ("target-period-nonpositive", p <= 0), ("target-period-beyond-10-percent", abs(p / W.p0 - 1) > 0.1)):
+            if on:
+                R.hist[tag] = R.hist.get(tag, 0) + 1
         if W.name.startswith("R"):
             R.hist["random-world-nonzero-shift" if (any(s % nbin for s in sd) or any(s % nbin for s in sp)) else "random-world-zero-shift"] = \
                 R.hist.get("random-world-nonzero-shift" if (any(s % nbin for s in sd) or any(s % nbin for s in sp)) else "random-world-zero-shift", 0) + 1
         if err is not None:
-            key = "single-subband-exception" if (W.shape[1] == 1 and err[1] == "IndexError") else "exception"
-            self.fail(key, f"update #{err[0]} of the history raised {err[1]}: {err[2]}", dict(case, failing_op=err[0]))
+            self.fail(err[3], f"update #{err[0]} of the history raised {err[1]}: {err[2]}", dict(case, failing_op=err[0]))
             return None, exp
-        out = (ilist(c.data), c.dm, c.period, ilist(np.atleast_1d(c._fph_shifts)), ilist(np.atleast_1d(c._tph_shifts)))
+        # only worlds that go to the correspondence need the flattened outcome (a `bits` cube has no integer values)
+        out = None if (W.bits or W.raw) else \
+            (ilist(c.data), c.dm, c.period, ilist(np.atleast_1d(c._fph_shifts)), ilist(np.atleast_1d(c._tph_shifts)))
         if c.data.shape != W.shape or c.data.dtype != np.float32:
             self.fail("shape", "shape or dtype of the cube changed", dict(case, shape=list(c.data.shape), dtype=str(c.data.dtype)))
             return out, exp
+        # the observational metadata the shifts are computed from is the caller's header, untouched by any update
+        hnow = {k: getattr(c.header, k, None) for k in HDR_FIELDS}
+        if c.header is not W.hdr or hnow != W.hdr0:
+            self.fail("header-changed", "the cube's header is no longer the header it was built with (object or field values changed)",
+                      dict(case, same_object=c.header is W.hdr, changed={k: [W.hdr0[k], hnow[k]] for k in HDR_FIELDS if hnow[k] != W.hdr0[k]}))
         if not biteq(c.data, exp):
             self.fail(f"history-{fam}", "cube after the history differs from a fresh cube rotated once to the final DM / period",
-                      dict(case, final_dm=d, final_period=p, got=ilist(c.data), expected=ilist(exp)))
+                      dict(case, final_dm=d, final_period=p, got=W.dump(c.data), expected=W.dump(exp)))
         if c.dm != d:
             self.fail("reported-dm", "reported DM is not the last target", dict(case, got=c.dm, expected=d))
         if c.period != p:
@@ -175,25 +297,27 @@ class Oracle:
         a = np.sort(c.data.view(np.uint32), axis=2)
         b = np.sort(W.cube0.view(np.uint32), axis=2)
         if not np.array_equal(a, b):
-            self.fail("multiset", "a profile no longer holds the values it was folded with", dict(case, got=ilist(c.data)))
+            self.fail("multiset", "a profile no longer holds the values it was folded with", dict(case, got=W.dump(c.data)))
         if extras and ops:
             # repeating the last update changes nothing
             before = c.data.copy()
             kind, v = ops[-1]
             try:
-                (c.update_dm if kind == "dm" else c.update_period)(v)
+                with strict():
+                    (c.update_dm if kind == "dm" else c.update_period)(v)
                 if not biteq(c.data, before) or c.dm != d or c.period != p:
                     self.fail(f"repeat-{'dm' if kind == 'dm' else 'period'}", "repeating the last update changed the cube",
-                              dict(case, repeated=[kind, v], before=ilist(before), after=ilist(c.data)))
+                              dict(case, repeated=W.ops_of([(kind, v)])[0], before=W.dump(before), after=W.dump(c.data)))
                 # returning to the folding values restores the folded cube bit for bit
-                c.update_dm(W.dm0)
-                c.update_period(W.p0)
+                with strict():
+                    c.update_dm(W.ctor[1])
+                    c.update_period(W.ctor[0])
                 if not biteq(c.data, W.cube0) or c.dm != W.dm0 or c.period != W.p0:
                     self.fail("return-to-fold", "returning to the folding DM and period does not restore the folded cube",
-                              dict(case, then=[["dm", v] if kind == "dm" else ["p", v], ["dm", W.dm0], ["p", W.p0]], got=ilist(c.data)))
+                              dict(case, then=W.ops_of([(kind, v), ("dm", W.ctor[1]), ("p", W.ctor[0])]), got=W.dump(c.data)))
             except Exception as e:  # noqa: BLE001
-                key = "single-subband-exception" if (W.shape[1] == 1 and type(e).__name__ == "IndexError") else "exception"
-                self.fail(key, f"repeat / return after the history raised {type(e).__name__}", dict(case, repeated=[kind, v]))
+                self.fail(exc_key(W, e), f"repeat / return after the history raised {type(e).__name__}: {str(e)[:80]}",
+                          dict(case, repeated=W.ops_of([(kind, v)])[0]))
         return out, exp
 
 
@@ -272,17 +396,31 @@ def families(W, depth):
         for n in range(1, depth + 1):
             for h in itertools.product(fam, repeat=n):
                 yield list(h)
+    # fourth family: the folding DM, one other DM, the folding period, one other period -- every way of coming back to a folding
+    # value in the middle of a mixed history (the `delta_dm == 0` / `dbins == 0` branches next to the other axis' bookkeeping).
+    # Histories of one kind only are already in the first two families.
+    back = [dm_ops[0], dm_ops[1], p_ops[0], p_ops[1]]
+    for n in range(2, depth + 1):
+        for h in itertools.product(back, repeat=n):
+            if len({k for k, _ in h}) == 2:
+                yield list(h)
 
 
 def run(R: vlib.Run):
     rng = R.rng
     quick = R.tier == "quick"
     R.rule = ("worlds = header x cube shape x folding DM/period x integer-valued cube; for each world ALL histories up to depth 4 "
-              "over three 4-symbol alphabets (4 DM targets incl. the folding DM; 4 period targets incl. the folding period; "
-              "2 DM + 2 period targets), thorough: also the full 8-symbol alphabet to depth 4; plus random histories of length "
+              "over four 4-symbol alphabets (4 DM targets incl. the folding DM; 4 period targets incl. the folding period; "
+              "2 DM + 2 period targets; folding DM + 1 DM + folding period + 1 period), thorough: also the full 8-symbol alphabet "
+              "to depth 4; plus random histories of length "
               "5-12 over 5+5 random float targets on random worlds (shapes 1..4 x 1..5 x 2..24, incl. one sub-band / one "
-              "sub-integration).  Each history: compare with a fresh cube rotated once (= the restated shift law), reported "
-              "dm/period, multiset per profile, repeat last update, return to the folding values.  A case is non-trivial if the "
+              "sub-integration; every other random world hands the constructor a float64 / Fortran-order / strided / nested-list "
+              "cube or a cube of float32 bit patterns with NaNs, infinities, -0.0, denormals).  Oracle-only worlds to depth 3: "
+              "targets and folding values of type int / numpy.float32 / numpy.float64, negative DM targets, period targets "
+              "<= 0 and 2x the folding period, profiles of one bin, a cube built with accel != 0.  "
+              "Each history: compare with a fresh cube rotated once (= the restated shift law, itself anchored to the float64 "
+              "drift: nearest bin), reported dm/period, header untouched, multiset per profile, repeat last update, return to the "
+              "folding values; a NumPy RuntimeWarning inside an update is a failure.  A case is non-trivial if the "
               "implied shift of some profile is non-zero modulo nbins or the history has two different updates; distinct = "
               "distinct (world, history)")
     R.trusted += ["Coq 8.16.1 kernel + vm_compute (witnesses, the 31 refuted reference choices, the in-Coq side of the correspondence)",
@@ -296,7 +434,13 @@ def run(R: vlib.Run):
     R.assume += ["DM and period targets are finite Python floats; folding period non-zero; every cube dimension >= 1",
                  "float subtraction newdm - ref and the test dbins == 0 agree with exact rational arithmetic on whether the result is zero "
                  "(checked for every table entry generated)",
-                 "nobody writes _data/_fph_shifts/_tph_shifts from outside the class (replace_nan / centre are not part of the histories)"]
+                 "nobody writes _data/_fph_shifts/_tph_shifts from outside the class (replace_nan / centre are not part of the histories)",
+                 "every shift, and every difference of two shifts along a history, stays below 2**30 bins in magnitude "
+                 "(|tobs * nbins * (period/period_fold - 1) / period_fold| < 2**30 and likewise the DM drift of every sub-band): "
+                 "_fph_shifts / _tph_shifts and the increments are int32 and wrap silently beyond, the model keeps them in Z; the "
+                 "generators (small scope and at scale) never ask for more than 2**29 bins",
+                 "the array handed to the constructor is used by nobody else afterwards: a float32 ndarray is adopted without a copy "
+                 "and rotated in place (every cube of the oracle gets a private input)"]
     R.exhaustive = True
     R.prove("Props/C17.v")
     # which branch of C17_verdict holds for the tree being checked
@@ -319,6 +463,21 @@ def run(R: vlib.Run):
     def randcube(shape):
         n = int(np.prod(shape))
         return [rng.randrange(-50, 200) for _ in range(n)]
+
+    SPECIAL = [0x7fc00000, 0xffc00000, 0x7fc00001, 0xffc12345, 0x7f800001, 0x7f800000, 0xff800000, 0x80000000, 0x00000001, 0x807fffff,
+               0x7f7fffff, 0xff7fffff]
+
+    def speccube(shape):
+        """integers with about a third of the cells replaced by NaNs (quiet, signalling, with payloads), infinities, -0.0, denormals,
+        +-float32 max and arbitrary bit patterns"""
+        b = np.asarray(randcube(shape), dtype=np.float32).view(np.uint32).copy()
+        for j in range(b.size):
+            u = rng.random()
+            if u < 0.25:
+                b[j] = rng.choice(SPECIAL)
+            elif u < 0.35:
+                b[j] = rng.getrandbits(32)
+        return b.view(np.float32)
 
     worlds = [
         World("A", hA, (2, 2, 8), 10.0, 0.5, cubeA, [10.0, 20.0, 30.0, 12.5], [0.5, 0.50390625, 0.5078125, 0.49609375]),
@@ -374,7 +533,15 @@ def run(R: vlib.Run):
         tobs = hp["tsamp"] * hp["nsamples"]
         # period offsets giving a drift of a fraction of a bin up to a few turns over the observation
         ps = [p0] + [p0 * (1 + rng.uniform(-1, 1) * rng.choice([0.3, 2.0, 9.0]) * p0 / (tobs * 1.0)) for _ in range(4)]
-        W = World(f"R{wi}", hp, (ni, nb, nbin), dm0, p0, randcube((ni, nb, nbin)), dms, ps)
+        # shifts stay far below 2**30 bins here (a few turns at most): see R.assume on the int32 bookkeeping
+        if small:               # -> correspondence: integer-valued cube, C-contiguous float32 copy
+            W = World(f"R{wi}", hp, (ni, nb, nbin), dm0, p0, randcube((ni, nb, nbin)), dms, ps)
+        elif wi % 4 == 1:       # what a real fold leaves (0/0 cells) and worse: updates must move bits, not values
+            W = World(f"R{wi}", hp, (ni, nb, nbin), dm0, p0, speccube((ni, nb, nbin)), dms, ps, bits=True,
+                      form=("copy", "fortran", "strided")[(wi // 4) % 3])
+        else:                   # the constructor converts / adopts what it is given
+            W = World(f"R{wi}", hp, (ni, nb, nbin), dm0, p0, randcube((ni, nb, nbin)), dms, ps,
+                      form=("f64", "fortran", "strided", "list")[(wi // 4) % 4])
         cases = []
         for _ in range(per):
             n = rng.randrange(5, 13)
@@ -383,6 +550,20 @@ def run(R: vlib.Run):
             cases.append((h, out, exp))
         if small:
             corr.append((W, cases))
+    # oracle-only worlds (the Gallina model has rational targets, integer cubes and no acceleration): the regimes of "arbitrary
+    # target values" the alphabets above never reach.  Typed targets are exactly representable in float32, so the value of a target
+    # does not depend on its type.  Largest drift asked for: 3200 bins (far below the int32 limit of R.assume).
+    f32, f64 = np.float32, np.float64
+    extra = [
+        World("F1", hA, (3, 3, 8), 10.0, 0.5, randcube((3, 3, 8)), [10.0, -5.0, 20, f32(12.5)], [0.5, 1, f32(0.50390625), -0.5], raw=True),
+        World("F2", hA, (3, 3, 1), 10.0, 0.5, randcube((3, 3, 1)), [f64(10.0), 0.0, f64(20.0), -40.0], [f64(0.5), 0.0, -0.25, 2.0], raw=True),
+        World("F3", hA, (2, 3, 6), 10, 1, randcube((2, 3, 6)), [10, 20, 35.5, -3], [1, 2, 1.00390625, f32(0.99609375)], raw=True),
+        World("G", hD, (2, 3, 6), 100.0, 0.1, speccube((2, 3, 6)), [100.0, 71.25, 135.5, 99.0], [0.1, 0.1002, 0.0997, 0.10001],
+              bits=True, accel=1.0),
+    ]
+    for W in extra:
+        for h in families(W, 3):
+            orc.check(W, h, extras=True)
     R.extra_cov["oracle_failures_by_key"] = dict(sorted(orc.count.items()))
     import time
     t_or = time.time()
@@ -467,7 +648,8 @@ def run(R: vlib.Run):
 # at-scale search
 # =========================================================================================================
 SC_K = 4.148808e3       # dispersion constant of the restated law (only for the float64 cross-check of the shifts)
-SC_SHIFT_CAP = 1 << 29  # |shift| asked for never exceeds this: differences of two int32 shifts stay inside int32
+SC_SHIFT_CAP = 1 << 29  # |shift| asked for never exceeds this: differences of two int32 shifts stay inside int32 (R.assume in run():
+                        # beyond 2**30 bins the int32 bookkeeping of the library wraps -- excluded regime, not searched)
 SC_SEED = 1717
 
 
@@ -658,9 +840,10 @@ class ScaleOracle:
             case = dict(base, at_op=k, op=[kind, v])
             R.tick(case)
             try:
-                (c.update_dm if kind == "dm" else c.update_period)(v)
+                with strict():
+                    (c.update_dm if kind == "dm" else c.update_period)(v)
             except Exception as e:  # noqa: BLE001
-                self.fail("scale-exception", f"update #{k} of the history raised {type(e).__name__}: {str(e)[:100]}", case)
+                self.fail(exc_key(W, e, "scale-"), f"update #{k} of the history raised {type(e).__name__}: {str(e)[:100]}", case)
                 return False
             if kind == "dm":
                 d = v
@@ -675,16 +858,18 @@ class ScaleOracle:
         try:
             case = dict(base, then=[[kind, v]])
             R.tick(case)
-            (c.update_dm if kind == "dm" else c.update_period)(v)
+            with strict():
+                (c.update_dm if kind == "dm" else c.update_period)(v)
             good = self.state(W, c, d, p, case, "scale-repeat", "repeating the last update changed the cube")
             case = dict(base, then=[[kind, v], ["dm", W.dm0], ["p", W.p0]])
             R.tick(case)
-            c.update_dm(W.dm0)
-            c.update_period(W.p0)
+            with strict():
+                c.update_dm(W.dm0)
+                c.update_period(W.p0)
             good = self.state(W, c, W.dm0, W.p0, case, "scale-return-to-fold",
                               "returning to the folding DM and period does not restore the folded cube") and good
         except Exception as e:  # noqa: BLE001
-            self.fail("scale-exception", f"repeat / return after the history raised {type(e).__name__}: {str(e)[:100]}", case)
+            self.fail(exc_key(W, e, "scale-"), f"repeat / return after the history raised {type(e).__name__}: {str(e)[:100]}", case)
             return False
         return good
 
@@ -708,9 +893,10 @@ class ScaleOracle:
             case = dict(base, at_call=k)
             R.tick(case)
             try:
-                r = np.atleast_1d(fn(v))
+                with strict():
+                    r = np.atleast_1d(fn(v))
             except Exception as e:  # noqa: BLE001
-                self.fail("scale-exception", f"delay computation #{k} raised {type(e).__name__}: {str(e)[:100]}", case)
+                self.fail(exc_key(W, e, "scale-"), f"delay computation #{k} raised {type(e).__name__}: {str(e)[:100]}", case)
                 return
             want = self.dm_shifts(W, v, case) if which == "dm" else self.p_shifts(W, v, case)
             if r.shape != (n,) or r.dtype.kind not in "iu":
